@@ -82,7 +82,11 @@ NOROW = 'NOROW'
 # ------------------------------------------------------------------------------------------------ model
 
 def _val(c):
-    return float('nan') if c == 'nan' else float(c)
+    if c == 'nan':
+        return float('nan')
+    if _CUR.get('near') and float(c) == 2.0:
+        return 1.0 + 1e-9            # a revision that differs from 1.0 in the tenth digit is a different value
+    return float(c)
 
 
 def flatten(history):
@@ -228,7 +232,28 @@ def _show(v):
 
 
 DF = [pd.Timestamp('2021-03-31'), pd.Timestamp('2021-06-30')]            # observation dates AFTER every stamp and read time (forecasts, forward-dated rows)
-_CUR = {'dates': D, 'reversed': False}
+_CUR = {'dates': D, 'reversed': False, 'near': False, 'tz': False}
+_UTC = datetime.timezone.utc
+_TZ2 = datetime.timezone(datetime.timedelta(hours=2))
+
+
+def stamp(si):
+    """publication stamp number si: naive, or (flag tz) the same wall clock as an aware UTC datetime"""
+    return S[si].replace(tzinfo=_UTC) if _CUR.get('tz') else S[si]
+
+
+def read_time(T):
+    """the read time of a READS_T entry: naive, or (flag tz) the same instant spelt in the +02:00 zone"""
+    if T[2] is None or not _CUR.get('tz'):
+        return T[2]
+    pos = T[1]
+    if pos == int(pos):
+        inst = S[int(pos)]
+    elif pos > len(S) - 1:
+        inst = S[-1] + datetime.timedelta(hours=1)
+    else:
+        inst = S[int(pos + 0.5)] - datetime.timedelta(hours=1)          # one hour BEFORE the next stamp: closer to it than the two zones are apart
+    return inst.replace(tzinfo=_UTC).astimezone(_TZ2)
 
 
 def mk_series(vd):
@@ -336,6 +361,8 @@ class History(BfsSuite):
         self.container = container          # 'series' | 'frame' (a version handed over as a one-column DataFrame)
         self.dates = 'past'                 # 'past': observation dates before every stamp | 'future': after every stamp and read time
         self.reversed = False               # True: versions list their observation dates newest first
+        self.near = False                   # True: the cell value 2 stands for 1.0 + 1e-9
+        self.tz = False                     # True: stamps are aware UTC datetimes, read times the same instants spelt in +02:00
 
     def initial(self):
         return [[]]
@@ -352,6 +379,8 @@ class History(BfsSuite):
         out = Out()
         _CUR['dates'] = DF if self.dates == 'future' else D
         _CUR['reversed'] = bool(self.reversed)
+        _CUR['near'] = bool(self.near)
+        _CUR['tz'] = bool(self.tz)
         pubs = flatten(history)
         n = len(pubs)
         if n == 0:
@@ -362,7 +391,8 @@ class History(BfsSuite):
             raise ValueError('history with decreasing stamps: %r' % (history,))
         H = show_history(history) + (' [versions as one-column frames]' if self.container == 'frame' else '') + (
             ' [observation dates d1, d2 = %s, %s: after every stamp]' % (DF[0].date(), DF[1].date()) if self.dates == 'future' else '') + (
-            ' [versions list d2 before d1]' if self.reversed else '')
+            ' [versions list d2 before d1]' if self.reversed else '') + (' [the value 2 is 1.0 + 1e-9]' if self.near else '') + (
+            ' [stamps are aware UTC datetimes, read times the same instants written in +02:00]' if self.tz else '')
         model = Model(pubs)
         has_list = any(op[0] != 'merge' for op in history)
         mk = mk_series if self.container == 'series' else (lambda vd: mk_series(vd).to_frame('x'))
@@ -371,18 +401,18 @@ class History(BfsSuite):
             items = [(op[1], op[2])] if op[0] in ('merge', 'plain') else [tuple(x) for x in op[1:]]
             sers = [mk(vd) for vd, si in items]                       # fresh version objects of this op
             sers0 = [snap(x) for x in sers]                           # ... as the publisher built them, before Bi / bi_merge see them
-            bis = [] if op[0] in ('plain', 'plain2') else [Bi(x, S[si]) for x, (vd, si) in zip(sers, items)]
+            bis = [] if op[0] in ('plain', 'plain2') else [Bi(x, stamp(si)) for x, (vd, si) in zip(sers, items)]
             before = [snap(store)] + [snap(b) for b in bis]
             if op[0] == 'merge':
                 new = bi_merge(store, bis[0])
             elif op[0] == 'mergelist':
                 new = bi_merge(store, list(bis))
             elif op[0] == 'plain':
-                new = bi_merge(store, sers[0], asof=S[op[2]])
+                new = bi_merge(store, sers[0], asof=stamp(op[2]))
             elif op[0] == 'plain2':
                 if store is not None:
                     raise ValueError('plain2 is a first operation')
-                new = bi_merge(sers[0], sers[1], asof=S[op[2][1]], existing_data=S[op[1][1]])
+                new = bi_merge(sers[0], sers[1], asof=stamp(op[2][1]), existing_data=stamp(op[1][1]))
             else:
                 raise ValueError('unknown op %r' % (op,))
             if check:
@@ -415,7 +445,7 @@ class History(BfsSuite):
                 seq = [None]
                 s2 = None
                 for vd, si in pubs[:-1]:
-                    s2 = bi_merge(s2, Bi(mk(vd), S[si]))
+                    s2 = bi_merge(s2, Bi(mk(vd), stamp(si)))
                     seq.append(s2)
             except Exception as e:
                 out.viol('merge-raised', '%s: merging its publications one by one raised %s: %s' % (H, type(e).__name__, e),
@@ -435,7 +465,7 @@ class History(BfsSuite):
             if not model.current(vd, si):
                 out.cls('remerge-superseded-skipped')
                 continue
-            b = Bi(mk(vd), S[si])
+            b = Bi(mk(vd), stamp(si))
             sa, sb = snap(A), snap(b)
             try:
                 R = bi_merge(A, b)
@@ -458,7 +488,7 @@ class History(BfsSuite):
         def read(st, T, w, label, sigvia):
             """one bi_read, normalised to rows; None when it could not be normalised (violation recorded)"""
             try:
-                res = bi_read(st, asof=T[2], what=w)
+                res = bi_read(st, asof=read_time(T), what=w)
                 out.call()
             except Exception as e:
                 out.viol('read-raised', '%s: bi_read(%s, asof=%s, what=%d) raised %s: %s' % (H, label, T[0], w, type(e).__name__, e),
@@ -595,6 +625,8 @@ def check_history(case):
     _VISITOR.container = case.get('container', 'series')
     _VISITOR.dates = case.get('dates', 'past')
     _VISITOR.reversed = case.get('reversed', False)
+    _VISITOR.near = case.get('near', False)
+    _VISITOR.tz = case.get('tz', False)
     out, key, exp = _VISITOR.visit(case['history'])
     return out
 
@@ -631,6 +663,10 @@ def gen_axes(tier):
             for v0 in VERSIONS:
                 for v1 in VERSIONS:
                     yield {'history': [['merge', v0, si], ['merge', v1, sj]], 'dates': 'future'}
+                    if 2.0 in v0 + v1 and 1.0 in v0 + v1:
+                        yield {'history': [['merge', v0, si], ['merge', v1, sj]], 'near': True}
+                    if (si, sj) != (0, 0):
+                        yield {'history': [['merge', v0, si], ['merge', v1, sj]], 'tz': True}
                     if (v0[0] is not None and v0[1] is not None) or (v1[0] is not None and v1[1] is not None):
                         yield {'history': [['merge', v0, si], ['merge', v1, sj]], 'reversed': True}
                         if tier != 'quick':
@@ -778,7 +814,7 @@ def suites(tier, seed):
               bounds=dict(common, max_publications=3)),
         Suite('axes', lambda: gen_axes(tier), check_history,
               rule='two-merge histories over all pairs of versions (%s) with (1) the observation dates lying AFTER every stamp and every read time (forward-dated rows: what '
-                   'is published by T is read at T whatever date it is about), (2) versions that list their observation dates newest first; same checks as the history suite'
+                   'is published by T is read at T whatever date it is about), (2) versions that list their observation dates newest first, (3) revisions that differ from the stored value in the tenth digit (1.0 + 1e-9), (4) tz-aware UTC stamps read at the same instants written in the +02:00 zone; same checks as the history suite'
                    % ('stamp pairs %s' % QUICK_STAMP_PAIRS if tier == 'quick' else 'all stamp pairs; reversed versions also through the list form'),
               bounds=dict(common, max_publications=2)),
         Suite('frameform', lambda: gen_frameform(tier), check_history,
